@@ -271,6 +271,31 @@ BOOL_TAGS = ('bool', 'le0', 'eq0', 'not', 'and', 'or', 'is_err', 'is_ok', 'is_so
              'eq', 'any', 'all')
 
 
+def simplify_under(c, known):
+    """simplify the condition c given the set of conditions `known` that hold"""
+    facts = set()
+    for k in known:
+        if isinstance(k, tuple) and k and k[0] == 'and':
+            facts.update(k[1])
+        else:
+            facts.add(k)
+
+    def simp(x):
+        if x in facts:
+            return TRUE
+        if tnot(x) in facts:
+            return FALSE
+        if isinstance(x, tuple) and x:
+            if x[0] == 'and':
+                return tand(*[simp(y) for y in x[1]])
+            if x[0] == 'or':
+                return tor(*[simp(y) for y in x[1]])
+            if x[0] == 'not':
+                return tnot(simp(x[1]))
+        return x
+    return simp(c)
+
+
 def is_bool(t):
     return isinstance(t, tuple) and bool(t) and t[0] in BOOL_TAGS
 
